@@ -493,3 +493,81 @@ def inconclusive_exit(prop, tier, why):
     """No verdict (infrastructure). Still leaves a schema-valid evidence file saying so."""
     print(f"INCONCLUSIVE property={prop} {why}")
     return 2
+
+
+# ---------------------------------------------------------------------------------------------
+# outcome comparison helpers for the metamorphic checks
+
+def status_class(o):
+    """accept / reject / panic / other"""
+    return {"ok": "accept", "err": "reject", "panic": "panic", "abort": "abort"}.get(o["status"], o["status"])
+
+
+def items_multiset(tokens):
+    from collections import Counter
+    return Counter(tuple(h) + tuple(b) for h, b in split_items(tokens))
+
+
+def diff_outcomes(oa, ob, mode="tok"):
+    """None when the two outcomes are equivalent for a metamorphic pair; else a short class of difference."""
+    ca, cb = status_class(oa), status_class(ob)
+    if ca != cb:
+        return f"verdict:{ca}/{cb}"
+    if ca != "accept":
+        return None
+    if mode == "tok":
+        if oa["tokens"] != ob["tokens"]:
+            return "tokens"
+    else:
+        if items_multiset(oa["tokens"]) != items_multiset(ob["tokens"]):
+            return "impl_set"
+    return None
+
+
+def first_token_diff(ta, tb, ctx=8):
+    n = min(len(ta), len(tb))
+    i = 0
+    while i < n and ta[i] == tb[i]:
+        i += 1
+    return {"at": i, "a": detok(ta[max(0, i - ctx):i + ctx]), "b": detok(tb[max(0, i - ctx):i + ctx])}
+
+
+def brief(o):
+    if o["status"] == "ok":
+        return {"status": "ok", "impls": o["tokens"].count("impl"), "tokens": len(o["tokens"])}
+    return {k: v for k, v in o.items() if k not in ("tokens", "text", "id")}
+
+
+# ---------------------------------------------------------------------------------------------
+# panic signatures: (message, enclosing function of the panic location). The function is looked up
+# from the reported file:line in /repo's sources (stable under inlining and under line shifts).
+_SRC_CACHE = {}
+
+
+def enclosing_fn(loc):
+    import re
+    try:
+        path, line = loc.rsplit(":", 1)
+        line = int(line)
+    except ValueError:
+        return ""
+    if not path.startswith(REPO):
+        return ""
+    if path not in _SRC_CACHE:
+        try:
+            _SRC_CACHE[path] = open(path).read().split("\n")
+        except OSError:
+            _SRC_CACHE[path] = []
+    src = _SRC_CACHE[path]
+    for i in range(min(line, len(src)) - 1, -1, -1):
+        m = re.match(r"^(\s*)(?:pub(?:\([a-z]+\))?\s+)?fn\s+(\w+)", src[i])
+        if m and len(m.group(1)) <= 4:
+            return os.path.basename(path)[:-3] + "::" + m.group(2)
+    return ""
+
+
+def panic_sig(o):
+    import re
+    msg = re.sub(r"[0-9]{3,}", "N", o.get("msg", ""))[:80]
+    fn = enclosing_fn(o.get("loc", "")) or o.get("func", "")
+    return f"panic|{msg}|{fn}"
